@@ -159,6 +159,11 @@ def expand_text(op, sfx):
     return "{{:" + t + "}}" if op["ns"] == 0 else "{{" + t + "}}"
 
 
+def spn(op):
+    sp = op.get("sp", {})
+    return (sp.get("pf", "canon") if op.get("ns") else "omit", bool(sp.get("lc")), bool(sp.get("us")), bool(sp.get("cm")))
+
+
 def sp_tag(op):
     sp = op.get("sp", {})
     tags = []
@@ -517,7 +522,7 @@ def diagnose(lab, executed, mm):
     if mm.get("rel"):
         fails = lambda ops: lab.final(ops, False, want=True) is not None
         w = shrink(base, fails) if fails(base) else base
-        return "existence-check-disagrees-with-lookup/hist=%s" % shape(w), {"ops": w, "nomemo": False, "at": len(w) - 1}
+        return "existence-check-disagrees-with-lookup(same arguments)", {"ops": w, "nomemo": False, "at": len(w) - 1}
     if mm.get("cured"):
         kind = "stale-read" if mm["stale"] else "corrupt-read:" + "+".join(mm["fields"])
         sig = kind + "/cured-by-get_page.cache_clear"
@@ -534,7 +539,7 @@ def diagnose(lab, executed, mm):
     if not fails(base):
         # only reproducible with the memo in play but not cured by clearing it
         kind = "+".join(mm["fields"])
-        return "unstable:%s/%s[%s]" % (kind, mm["o"], sp_tag(executed[i]) if "sp" in executed[i] else "-"), \
+        return "unstable(not cured by get_page.cache_clear, not reproduced with the memo off):%s/%s" % (kind, mm["o"]), \
             {"ops": executed[:i + 3], "nomemo": False, "at": i}
     b2 = strip_dx(base)
     if fails(b2):
@@ -553,34 +558,56 @@ def diagnose(lab, executed, mm):
             break
     last = dict(w[-1])
     if last["o"] in READS:
+        # op ladder (plain get, else get_page_body, else the op as it was) and spelling features one at a
+        # time; each change is tried on every read of the same spelling first (an earlier identical read
+        # may be what the failure depends on), then on the last read alone
+        w = w[:-1] + [last]
+
+        def variants(w, change, same_op):
+            last = w[-1]
+            sel = lambda o: ("sp" in o and o["ns"] == last["ns"] and o["b"] == last["b"] and spn(o) == spn(last)
+                             and (not same_op or o["o"] == last["o"]))
+            yield [change(o) if sel(o) else o for o in w]
+            yield w[:-1] + [change(last)]
+
+        def attempt(w, change, same_op=False):
+            for cand in variants(w, change, same_op):
+                if cand != w and all(o["o"] != "expand" or expand_ok(o) for o in cand) and fails(cand):
+                    return cand
+            return w
+
+        def set_op(name):
+            def ch(o):
+                o = dict(o, o=name)
+                o.pop("dflt", None)
+                return o
+            return ch
+
         # the same concrete title expressed relative to a written base name ('qux' = lcfirst of 'Qux')
-        if not last.get("sp", {}).get("lc"):
+        last = w[-1]
+        if "sp" in last and not last["sp"].get("cm"):
+            conc = last["b"][:1].lower() + last["b"][1:] if last["sp"].get("lc") else last["b"]
             for o in w[:-1]:
-                if (o["o"] in ("add", "redir") and o["ns"] == last["ns"] and o["b"] != last["b"]
-                        and o["b"][:1].lower() + o["b"][1:] == last["b"]):
-                    cand = dict(last, b=o["b"], sp=dict(last.get("sp", {}), lc=True))
-                    if fails(w[:-1] + [cand]):
-                        last = cand
-                        break
-        # op: plain get if that fails too
-        if last["o"] not in ("get", "getfull"):
-            cand = dict(last, o="get")
-            cand.pop("dflt", None)
-            if fails(w[:-1] + [cand]):
-                last = cand
-        elif last.get("dflt"):
-            pass
-        # spelling features one at a time
-        sp = dict(last.get("sp", {}))
-        for k, dv in (("cm", False), ("lc", False), ("us", False), ("pf", "canon" if last["ns"] else "omit")):
-            if sp.get(k, dv) != dv:
-                sp2 = dict(sp)
-                sp2[k] = dv
-                cand = dict(last, sp=sp2)
-                if (cand["o"] != "expand" or expand_ok(cand)) and fails(w[:-1] + [cand]):
-                    sp = sp2
-                    last = cand
-        w = ddmin(w[:-1] + [last], fails)
+                if o["o"] in ("add", "redir") and o["ns"] == last["ns"]:
+                    if o["b"] == conc:
+                        nb, nlc = o["b"], False
+                    elif o["b"][:1].lower() + o["b"][1:] == conc:
+                        nb, nlc = o["b"], True
+                    else:
+                        continue
+                    w = attempt(w, lambda r, nb=nb, nlc=nlc: dict(r, b=nb, sp=dict(r["sp"], lc=nlc)))
+                    break
+        for simpler in ("get", "body"):
+            if w[-1]["o"] in ("get", "getfull", simpler):
+                break
+            w2 = attempt(w, set_op(simpler), same_op=True)
+            if w2 is not w:
+                w = w2
+                break
+        for k, dv in (("cm", False), ("lc", False), ("us", False), ("pf", "canon" if w[-1]["ns"] else "omit")):
+            if w[-1].get("sp", {}).get(k, dv) != dv:
+                w = attempt(w, lambda o, k=k, dv=dv: dict(o, sp=dict(o["sp"], **{k: dv})))
+        w = ddmin(w, fails)
     # stored-form features of the writes
     for j in range(len(w) - 1):
         if w[j]["o"] == "redir":
@@ -596,6 +623,9 @@ def diagnose(lab, executed, mm):
                     c2 = w[:j] + [cand] + w[j + 1:]
                     if fails(c2):
                         w = c2
+    ws = sorted(w[:-1], key=lambda o: 0 if o["o"] == "add" else 1 if o["o"] == "redir" else 2)
+    if ws != w[:-1] and all(o["o"] in ("add", "redir") for o in ws) and fails(ws + [w[-1]]):
+        w = ws + [w[-1]]
     stored = set()
     for o in w[:-1]:
         if o["o"] in ("add", "redir"):
